@@ -107,12 +107,13 @@ class Spec:
     """
 
     def __init__(self, file, path, env, result=(), returns=None, inline=None, effects=None, skip=None, num='Int',
-                 consts=None):
+                 consts=None, until=None):
         self.file, self.path, self.env = file, path, dict(env)
         self.result, self.returns = list(result), returns
         self.inline, self.effects, self.skip = inline or {}, effects or {}, skip
         self.num = num
         self.consts = consts or {}
+        self.until = until          # predicate on a statement: the translated part of the body ends before it
 
 
 class FnTr:
@@ -408,4 +409,12 @@ def translate_fn(spec, trees, find):
     f = find(trees[spec.file], spec.path)
     tr = FnTr(spec, trees, find)
     env = dict(spec.env)
-    return '\n' + tr.block(list(f.body), env, '  ')
+    body = list(f.body)
+    if spec.until is not None:
+        for i, st in enumerate(body):
+            if spec.until(st):
+                body = body[:i]
+                break
+        else:
+            raise Untranslatable('end of the translated part not found')
+    return '\n' + tr.block(body, env, '  ')
